@@ -91,6 +91,12 @@ func main() {
 	}
 	eng.verbose = o.verbose
 	eng.blockCanaries = o.tier == "thorough"
+	eng.openKF = map[string]bool{}
+	for _, kf := range loadKnownFindings(filepath.Join(o.verif, "KNOWN_FINDINGS.txt")) {
+		if kf.Status == "open" {
+			eng.openKF[kf.Obligation] = true
+		}
+	}
 	switch cmd {
 	case "list":
 		var keys []string
@@ -197,6 +203,11 @@ func runObligations(eng *Engine, obls []*Obligation, dir string, o options) {
 			ob.Skipped = "filtered"
 			continue
 		}
+		if o.prop != "" && ob.Kind == "assert" && len(ob.Props) > 0 && !hasProp(ob.Props, o.prop) {
+			// an assertion tagged {Cxx} belongs to that property only
+			ob.Skipped = "filtered"
+			continue
+		}
 		wg.Add(1)
 		sem <- struct{}{}
 		go func(ob *Obligation) {
@@ -217,6 +228,13 @@ func runObligations(eng *Engine, obls []*Obligation, dir string, o options) {
 				r := runSolver(bgctx(), solvers[0], file, 2, o.seed, "smt.mbqi=false")
 				ob.Result = r
 				ob.All = []SolverResult{r}
+				return
+			}
+			if eng.openKF[ob.Name] {
+				// a listed open finding: one short attempt (it is reported as KNOWN-FINDING unless it
+				// is discharged, in which case the finding has gone away and the check says so)
+				r := runSolver(bgctx(), solvers[0], file, 5, o.seed)
+				ob.Result, ob.All = r, []SolverResult{r}
 				return
 			}
 			ob.Result, ob.All = raceSolvers(file, o.timeout, o.seed, o.tier == "thorough")
@@ -356,7 +374,7 @@ func loadKnownFindings(path string) []knownFinding {
 				kf.Obligation = f[11:]
 			}
 		}
-		kf.What = ln
+		kf.What = strings.TrimSpace(strings.TrimPrefix(strings.TrimSpace(ln), "property="+kf.Property))
 		out = append(out, kf)
 	}
 	return out
